@@ -51,6 +51,7 @@ import (
 	"github.com/privacybydesign/gabi/big"
 	"github.com/privacybydesign/gabi/gabikeys"
 	"github.com/privacybydesign/gabi/keyproof"
+	"github.com/privacybydesign/gabi/rangeproof"
 	"github.com/privacybydesign/gabi/revocation"
 	"github.com/privacybydesign/gabi/safeprime"
 	"github.com/sirupsen/logrus"
@@ -119,7 +120,7 @@ func init() {
 // generators
 
 var c20Scenarios = []string{
-	"prep-first", "prep-first-prove", "prep-repeat-prove", "prove-shared", "verify-shared", "cprng", "keygen", "keyproof",
+	"prep-first", "prep-first-prove", "prep-repeat-prove", "prove-shared", "prove-range", "verify-shared", "cprng", "keygen", "keyproof",
 }
 
 // inflightRefreshOp: a session that spans a cache refresh (committed before, answered after the
@@ -772,6 +773,31 @@ func execC20Child(o Op) string {
 							return
 						}
 						errs.add(env.verify(p, false))
+					}
+				})
+			})
+		}
+
+	case "prove-range":
+		// provers that share a credential and each prove an inequality about a hidden attribute
+		// (four squares, another slack each), every proof verified
+		env := c20NewEnv()
+		for it := 0; it < iters; it++ {
+			cred := c20Credential(env)
+			parallel(n, func(i int) {
+				guard(func() {
+					st, err := rangeproof.NewStatement(rangeproof.GreaterOrEqual, bi(int64(1000-37*i-it)))
+					if err != nil {
+						errs.add("statement:" + err.Error())
+						return
+					}
+					p, err := cred.CreateDisclosureProof([]int{2}, map[int][]*rangeproof.Statement{1: {st}}, false, env.context, env.nonce)
+					if err != nil {
+						errs.add("prove:" + err.Error())
+						return
+					}
+					if !p.Verify(env.kp.pk, env.context, env.nonce, false) || len(p.RangeProofs[1]) != 1 || !p.RangeProofs[1][0].Proves(st) {
+						errs.add("range proof does not verify")
 					}
 				})
 			})
